@@ -14,7 +14,6 @@ use vf_ref::rescue::Rescue;
 use vf_ref::rescue_consts as k;
 use vf_repo::prelude::*;
 use winter_crypto::hashers::{Blake3_192, Blake3_256, Rp62_248, Rp64_256, RpJive64_256, Sha3_256};
-use winter_crypto::{ElementHasher, Hasher};
 use winter_math::FieldElement;
 
 use crate::ha::{digest_from_words, pkey, Hx, HA};
@@ -561,7 +560,7 @@ impl<B: FA, H: HA<B> + Sync> SubCheck for Elems<B, H> {
         if H::refh().is_rescue() {
             tier.pick(30_000, 600_000)
         } else {
-            tier.pick(100_000, 2_000_000)
+            tier.pick(100_000, 1_500_000)
         }
     }
     fn watchdog_secs(&self) -> u64 {
@@ -698,7 +697,7 @@ impl<B: FA, H: HA<B> + Sync> SubCheck for Merge<B, H> {
     }
     fn cases(&self, tier: Tier) -> u64 {
         if H::refh().is_rescue() {
-            tier.pick(10_000, 200_000)
+            tier.pick(8_000, 150_000)
         } else {
             tier.pick(100_000, 2_000_000)
         }
@@ -899,6 +898,3 @@ pub fn run(run: &mut Run) {
     run.sub(&Merge::<B62, Rp62_248>(PhantomData));
     run.sub(&Merge::<B64, RpJive64_256>(PhantomData));
 }
-
-#[allow(dead_code)]
-fn _unused<B: FA, H: ElementHasher<BaseField = B> + Hasher>() {}
